@@ -91,9 +91,13 @@ Proof. unfold iseek_back. destruct (iseekable s); [apply okp_iseek|exact I]. Qed
 Lemma okp_catch {A} p (r : res A) : okp p r -> okp p (catch_key r p).
 Proof. destruct r as [a|e q]; cbn; [auto|]. destruct e; cbn; auto; intros; apply prefix_refl. Qed.
 
+Lemma okp_vint_of p v : okp p (vint_of v).
+Proof. destruct v; exact I. Qed.
+
 Ltac pk :=
   repeat first
     [ exact I
+    | apply okp_vint_of
     | apply okp_raise
     | apply okp_iread | apply okp_iseek | apply okp_iseek_user | apply okp_iseek_back
     | apply nopath_okp; first [ apply eval_np | apply eval_int_np | apply eval_obj_np | exact I ]
@@ -121,7 +125,7 @@ Proof.
     try solve [repeat first [pk_ih | progress pk]];
     try solve [apply okp_catch, okp_sum; assumption].
   - (* Switch *) apply okp_catch. apply okp_bind; [pk|intros k]. destruct (negb (hashable k)); [exact I|].
-    induction a1 as [|[v c'] t IHt]; [apply IHc|]. inversion H as [|? ? Hc Ht]; subst.
+    match goal with HF : Forall _ ?l |- _ => induction l as [|[v c'] t IHt] end; [apply IHc|]. inversion H as [|? ? Hc Ht]; subst.
     destruct (val_eqb k v); [apply Hc|apply IHt, Ht].
   - (* Transformed *) destruct a2, a4; pk.
   - (* Restreamed *) destruct a5; repeat first [pk_ih | progress pk].
@@ -219,6 +223,63 @@ Proof.
   - destruct req; [exact Hr|exact I].
 Qed.
 
+Definition Sok (A : sizer) : Prop := forall cx p s, okp p (A cx p s).
+Definition Pok1 (P : parser) : Prop := forall cx p s, okp p (P cx p s).
+
+Lemma okp_actualsize c : Pok c -> (forall lc c' incl, c = CPrefixed lc c' incl -> Pok lc) -> Sok (actualsize_with parse c).
+Proof.
+  intros Hc Hl cx p s. unfold actualsize_with. destruct c; try apply sizeof_path_extends.
+  apply okp_bind; [apply (Hl c1 c2 incl eq_refl)|intros [lv s1]]. apply okp_bind; [destruct lv; exact I|intros n].
+  apply okp_bind; [destruct incl; [apply okp_bind; [apply sizeof_path_extends|intros; exact I]|exact I]|intros; exact I].
+Qed.
+
+Lemma okp_lazy_step Pc Ac nm p st : Pok1 Pc -> Sok Ac -> okp p (lazy_step Pc Ac nm p st).
+Proof.
+  intros HP HA. destruct st as [[[[[i off] cx] s] offs] cache]. unfold lazy_step.
+  pose proof (HA cx p s) as Ha. destruct (Ac cx p s) as [n|e q].
+  - apply okp_bind; [apply okp_iseek|intros [r s1]; exact I].
+  - destruct e; try exact Ha. apply okp_bind; [apply okp_iseek|intros [r s0]]. apply okp_bind; [apply HP|intros [v s1]; exact I].
+Qed.
+
+Lemma okp_lazy_force Pc off cx p s : Pok1 Pc -> okp p (lazy_force Pc off cx p s).
+Proof.
+  intros HP. unfold lazy_force. apply okp_bind; [apply okp_iseek|intros [r s1]]. apply okp_bind; [apply HP|intros [v s2]].
+  apply okp_bind; [apply okp_iseek|intros [r2 s3]; exact I].
+Qed.
+
+Lemma okp_lazy_scan_array Pc Ac : Pok1 Pc -> Sok Ac -> forall n p st, okp p (lazy_scan_array Pc Ac n p st).
+Proof.
+  intros HP HA. induction n as [|n IH]; intros p st; cbn [lazy_scan_array]; [exact I|].
+  apply okp_bind; [apply okp_lazy_step; assumption|intros st'; apply IH].
+Qed.
+
+Lemma okp_force_array Pc : Pok1 Pc -> forall n i offs cache cx p s, okp p (force_array Pc n i offs cache cx p s).
+Proof.
+  intros HP. induction n as [|n IH]; intros i offs cache cx p s; cbn [force_array]; [exact I|].
+  apply okp_bind.
+  - destruct (cache_get i cache); [exact I|]. destruct (nth_error offs i); [|exact I].
+    apply okp_bind; [apply okp_lazy_force; exact HP|intros [v s']; exact I].
+  - intros v. apply okp_bind; [apply IH|intros; exact I].
+Qed.
+
+(* members with their own sub-constructs well behaved *)
+Definition Pok2 (c : con) : Prop := Pok c /\ (forall lc c' incl, c = CPrefixed lc c' incl -> Pok lc).
+
+Lemma okp_lazy_scan_struct cs : Forall Pok2 cs -> forall p st, okp p (lazy_scan_struct parse cs p st).
+Proof.
+  induction 1 as [|c t [Hc Hl] Ht IH]; intros p st; cbn [lazy_scan_struct]; [exact I|].
+  apply okp_bind; [apply okp_lazy_step; [exact Hc|apply okp_actualsize; assumption]|intros st'; apply IH].
+Qed.
+
+Lemma okp_force_struct cs : Forall Pok cs -> forall i offs cache cx p s, okp p (force_struct parse cs i offs cache cx p s).
+Proof.
+  induction 1 as [|c t Hc Ht IH]; intros i offs cache cx p s; cbn [force_struct]; [exact I|].
+  destruct (name_of c); [|apply IH]. apply okp_bind.
+  - destruct (cache_get i cache); [exact I|]. destruct (nth_error offs i); [|exact I].
+    apply okp_bind; [apply okp_lazy_force; exact Hc|intros [v s']; exact I].
+  - intros v. apply okp_bind; [apply IH|intros; exact I].
+Qed.
+
 Ltac pk_parse :=
   match goal with
   | H : Pok ?c |- okp ?p (parse ?c _ ?p _) => apply H
@@ -236,20 +297,26 @@ Ltac pkm := repeat first [ pk_parse | progress pk
                          | match goal with |- okp _ (match bits2integer ?a ?b with _ => _ end) => destruct (bits2integer a b) end
                          | match goal with |- okp _ (match (if ?c then swapbytesinbits ?d else Some ?d) with _ => _ end) => destruct (if c then swapbytesinbits d else Some d) end ].
 
-Theorem parse_path_extends : forall c, Pok c.
+Theorem parse_path_extends2 : forall c, Pok2 c.
 Proof.
-  induction c using con_ind2; intros cx p s; cbn [parse].
+  induction c using con_ind2; (split; [|intros lc0 c0 incl0 E0; try discriminate E0; injection E0 as -> -> ->; match goal with H : Pok2 lc0 |- _ => exact (proj1 H) end]).
+  all: try (match goal with H : Forall (fun c : con => Pok2 c) ?cs |- _ =>
+              assert (HF2 := H); assert (HF : Forall Pok cs) by (eapply Forall_impl; [|exact H]; intros ? [? ?]; assumption); clear H; rename HF into H end).
+  all: try (match goal with H : Forall (fun vc => Pok2 (snd vc)) ?cs |- _ =>
+              assert (HF : Forall (fun vc => Pok (snd vc)) cs) by (eapply Forall_impl; [|exact H]; intros ? [? ?]; assumption); clear H; rename HF into H end).
+  all: repeat match goal with H : Pok2 _ |- _ => let A := fresh "Hok" in let B := fresh "IHl" in destruct H as [A B]; rename A into H end.
+  all: intros cx p s; cbn [parse].
   all: try solve [pkp].
   all: try solve [pkm].
   all: try solve [unfold parse_format; pkp].
   all: try solve [unfold parse_varint; apply okp_bind; [apply okp_varint_loop|intros [n s']; exact I]].
   all: try solve [ (* Terminated *) destruct (iavail s); [exact I|apply okp_raise] ].
   all: try solve [ (* Index *) destruct (c_scopes cx); exact I ].
-  all: try solve [ (* StringEncoded *) apply okp_bind; [apply IHc|intros [v s']]; destruct v; try apply okp_raise; destruct (decode a0 b); [exact I|apply okp_raise] ].
+  all: try solve [ (* StringEncoded *) apply okp_bind; [apply IHc|intros [v s']]; destruct v; try apply okp_raise; match goal with |- context [decode ?a ?b] => destruct (decode a b) end; [exact I|apply okp_raise] ].
   all: try solve [ (* Enum *) apply okp_bind; [apply IHc|intros [v s']]; destruct v; try exact I; cbv zeta;
       match goal with |- context [last_label ?z ?t None] => destruct (last_label z t None) end; exact I ].
   all: try solve [ (* FlagsEnum *) apply okp_bind; [apply IHc|intros [v s']]; apply okp_bind; [destruct v; exact I|intros; exact I] ].
-  all: try solve [ (* Mapping *) apply okp_bind; [apply IHc|intros [v s']]; destruct (negb (hashable v)); [apply okp_raise|]; destruct (mapping_decode v a0 None); [exact I|apply okp_raise] ].
+  all: try solve [ (* Mapping *) apply okp_bind; [apply IHc|intros [v s']]; destruct (negb (hashable v)); [apply okp_raise|]; match goal with |- context [mapping_decode ?v ?a None] => destruct (mapping_decode v a None) end; [exact I|apply okp_raise] ].
   all: try solve [ (* Hex *) apply okp_bind; [apply IHc|intros [v s']]; destruct v; try exact I;
       (pose proof (sizeof_path_extends c cx p) as Hs; destruct (sizeof c cx p) as [n|e q]; [exact I|destruct e; try exact I; exact Hs]) ].
   all: try solve [ (* OneOf *) apply okp_bind; [apply IHc|intros [v s']]; apply okp_bind; [unfold oneof_mem; destruct (hashable v); exact I|intros b]; destruct b; pk ].
@@ -257,48 +324,37 @@ Proof.
   all: try solve [ (* Struct *) apply okp_bind; [apply okp_struct_loop; exact H|intros [[kv cx'] s']; exact I] ].
   all: try solve [ (* Sequence *) apply okp_bind; [apply okp_seq_loop; exact H|intros [vs s']; exact I] ].
   all: try solve [ (* FocusedSeq *) apply okp_bind; [apply okp_focus_loop; exact H|intros [fin s']]; destruct fin; exact I ].
-  all: try solve [ (* Union *) apply okp_bind; [apply okp_union_loop; exact H|intros [[[kv cx''] fw] s']]; destruct a0; try exact I;
+  all: try solve [ (* Union *) apply okp_bind; [apply okp_union_loop; exact H|intros [[[kv cx''] fw] s']]; match goal with |- okp _ (match ?x with _ => _ end) => destruct x end; try exact I;
       match goal with |- context [find ?f ?l] => destruct (find f l) as [[[? ?] ?]|] end; try exact I;
       (apply okp_bind; [apply okp_iseek|intros [r s'']; exact I]) ].
   all: try solve [ (* Select *) apply okp_select_loop; exact H ].
-  all: try solve [ (* Switch *) apply okp_bind; [pk|intros k]; destruct (negb (hashable k)); [exact I|]; induction a1 as [|[v c'] t IHt]; [apply IHc|]; inversion H as [|? ? Hc Ht]; subst; destruct (val_eqb k v); [apply Hc|apply IHt, Ht] ].
+  all: try solve [ (* Switch *) apply okp_bind; [pk|intros k]; destruct (negb (hashable k)); [exact I|]; match goal with HF : Forall _ ?l |- _ => induction l as [|[v c'] t IHt] end; [apply IHc|]; inversion H as [|? ? Hc Ht]; subst; destruct (val_eqb k v); [apply Hc|apply IHt, Ht] ].
   all: try solve [ (* Array *) apply okp_bind; [pk|intros n]; destruct (n <? 0)%Z; [apply okp_raise|]; apply okp_bind; [apply okp_count_loop; exact IHc|intros [vs s']; exact I] ].
   all: try solve [ (* GreedyRange *) apply okp_bind; [apply okp_greedy_loop; exact IHc|intros [vs s']; exact I] ].
   all: try solve [ (* RepeatUntil *) apply okp_bind; [apply okp_until_loop; exact IHc|intros [vs s']; exact I] ].
   all: try solve [ (* Peek *) pose proof (IHc cx p s) as Hp; destruct (parse c cx p s) as [[v s1]|e q];
     [ apply okp_bind; [apply okp_iseek|intros [r sb]; exact I]
     | apply okp_bind; [apply okp_iseek_back|intros [r sb]]; destruct (err_eqb e EExplicit); [exact Hp|]; destruct (is_construct_error e); [exact I|exact Hp] ] ].
-  all: try solve [ (* NullTerminated *) destruct a0; [apply okp_raise|]; apply okp_bind; [apply okp_nullterm|intros [d s1]]; apply okp_bind; [apply IHc|intros [v s2]; exact I] ].
-  all: try solve [ (* NullStripped *) destruct a0; [apply okp_raise|]; destruct (iread_all s); apply okp_bind; [apply IHc|intros [v s2]; exact I] ].
-  all: try solve [ (* Transformed *) apply okp_bind; [destruct a1; pk|intros [d s1]]; apply okp_bind; [destruct a0; cbn [apply_bfun]; try exact I; destruct (bits2bytes d); exact I|intros d']; apply okp_bind; [apply IHc|intros [v s2]; exact I] ].
-  all: try solve [ (* Restreamed *) destruct (a1 <? 1)%Z; [exact I|]; match goal with |- context [decode_units ?f ?u] => destruct (decode_units f u) end; [|exact I]; apply okp_bind; [apply IHc|intros [v si]]; match goal with |- context [units_needed ?k ?d] => destruct (units_needed k d) end; destruct (Nat.eqb _ _); [exact I|apply okp_raise] ].
+  all: try solve [ (* NullTerminated *) match goal with |- okp _ (match ?x with _ => _ end) => destruct x end; [apply okp_raise|]; apply okp_bind; [apply okp_nullterm|intros [d s1]]; apply okp_bind; [apply IHc|intros [v s2]; exact I] ].
+  all: try solve [ (* NullStripped *) match goal with |- okp _ (match ?x with _ => _ end) => destruct x end; [apply okp_raise|]; destruct (iread_all s); apply okp_bind; [apply IHc|intros [v s2]; exact I] ].
+  all: try solve [ (* Transformed *) apply okp_bind; [match goal with |- okp _ (match ?x with _ => _ end) => destruct x end; pk|intros [d s1]]; apply okp_bind; [match goal with |- okp _ (apply_bfun ?f _) => destruct f end; cbn [apply_bfun]; try exact I; destruct (bits2bytes d); exact I|intros d']; apply okp_bind; [apply IHc|intros [v s2]; exact I] ].
+  all: try solve [ (* Restreamed *) match goal with |- okp _ (if ?x then _ else _) => destruct x end; [exact I|]; match goal with |- context [decode_units ?f ?u] => destruct (decode_units f u) end; [|exact I]; apply okp_bind; [apply IHc|intros [v si]]; match goal with |- context [units_needed ?k ?d] => destruct (units_needed k d) end; destruct (Nat.eqb _ _); [exact I|apply okp_raise] ].
   all: try solve [ (* ProcessXor *) apply okp_bind; [pk|intros k]; destruct k; try apply okp_raise;
       (destruct (iread_all s); apply okp_bind; [unfold xor_data; repeat match goal with |- okp _ (match ?x with _ => _ end) => destruct x | |- okp _ (if ?x then _ else _) => destruct x end; try exact I; apply okp_raise|intros d']; apply okp_bind; [apply IHc|intros [v s2]; exact I]) ].
   all: try solve [ (* ProcessRotl *) apply okp_bind; [pk|intros a]; apply okp_bind; [pk|intros g]; destruct (g <? 1)%Z; [apply okp_raise|]; destruct (alloc_bound <? g)%Z; [exact I|]; destruct (iread_all s); match goal with |- context [rotate_left ?x ?y ?z] => destruct (rotate_left x y z) end; [|apply okp_raise]; apply okp_bind; [apply IHc|intros [v s2]; exact I] ].
   all: try solve [ (* Checksum *) apply okp_bind; [apply IHc|intros [h1 s1]]; apply okp_bind; [pk|intros d]; destruct d; try exact I; destruct (val_eqb _ _); [exact I|apply okp_raise] ].
-  all: try solve [ (* Lazy *) apply okp_bind; [apply sizeof_path_extends|intros n]; destruct c; try exact I;
-      (apply okp_bind; [apply okp_iseek|intros [r s1]]; apply okp_bind; [apply IHc|intros [v s2]; exact I]) ].
-  all: try solve [ (* StringEncoded *) apply okp_bind; [apply IHc|intros [v s']]; destruct v; try apply okp_raise;
-      match goal with |- context [decode ?e ?b] => destruct (decode e b) end; [exact I|apply okp_raise] ].
-  all: try solve [ (* Mapping *) apply okp_bind; [apply IHc|intros [v s']]; destruct (negb (hashable v)); [apply okp_raise|];
-      match goal with |- context [mapping_decode ?v ?t None] => destruct (mapping_decode v t None) end; [exact I|apply okp_raise] ].
-  all: try solve [ (* Prefixed *) apply okp_bind; [apply IHc1|intros [lv s1]]; apply okp_bind; [destruct lv; exact I|intros n];
-      apply okp_bind; [match goal with |- okp _ (if ?b then _ else _) => destruct b end; [apply okp_bind; [apply sizeof_path_extends|intros; exact I]|exact I]|intros n0];
-      apply okp_bind; [apply okp_iread|intros [d s2]]; apply okp_bind; [apply IHc2|intros [v s3]; exact I] ].
-  all: try solve [ (* NullTerminated *) match goal with |- okp _ (match ?t with [] => _ | _ :: _ => _ end) => destruct t end; [apply okp_raise|];
-      apply okp_bind; [apply okp_nullterm|intros [d s1]]; apply okp_bind; [apply IHc|intros [v s2]; exact I] ].
-  all: try solve [ (* Transformed *) apply okp_bind; [match goal with |- okp _ (match ?a with Some _ => _ | None => _ end) => destruct a end; pk|intros [d s1]];
-      apply okp_bind; [match goal with |- okp _ (apply_bfun ?f ?d) => destruct f; cbn [apply_bfun]; try exact I; destruct (bits2bytes d); exact I end|intros d'];
-      apply okp_bind; [apply IHc|intros [v s2]; exact I] ].
-  all: try solve [ (* Restreamed *) match goal with |- okp _ (if ?b then _ else _) => destruct b end; [exact I|];
-      match goal with |- context [decode_units ?f ?u] => destruct (decode_units f u) end; [|exact I];
-      apply okp_bind; [apply IHc|intros [v si]]; match goal with |- context [units_needed ?k ?d] => destruct (units_needed k d) end;
-      match goal with |- okp _ (if ?b then _ else _) => destruct b end; [exact I|apply okp_raise] ].
-  all: try solve [ (* Lazy *) apply okp_bind; [apply sizeof_path_extends|intros n];
-      assert (G : okp p (let* (_, s1) := iseek s n 1 p in let* (v, _) := parse c cx p s in Ok (v, s1)))
-        by (apply okp_bind; [apply okp_iseek|intros [r s1]]; apply okp_bind; [apply IHc|intros [v s2]; exact I]);
-      destruct c; try exact I; exact G ].
+  all: try solve [ (* Lazy *) pose proof (okp_actualsize c IHc IHl cx p s) as Ha; destruct (actualsize_with parse c cx p s) as [n|e q];
+      [ apply okp_bind; [apply okp_iseek|intros [r s1]]; apply okp_bind; [apply okp_lazy_force; exact IHc|intros [v s2]; exact I]
+      | destruct e; try exact Ha; apply okp_bind; [apply okp_iseek|intros [r s0]; apply IHc] ] ].
+  all: try solve [ (* LazyStruct *) apply okp_bind; [apply okp_lazy_scan_struct; exact HF2|intros [[[[[i off] cx1] s'] offs] cache]];
+      apply okp_bind; [apply okp_force_struct; exact H|intros; exact I] ].
+  all: try solve [ (* LazyArray *) apply okp_bind; [pk|intros n]; destruct (n <? 0)%Z; [apply okp_raise|]; destruct (alloc_bound <? n)%Z; [exact I|];
+      apply okp_bind; [apply okp_lazy_scan_array; [assumption|apply okp_actualsize; assumption]|intros [[[[[i off] cx1] s'] offs] cache]];
+      apply okp_bind; [apply okp_force_array; exact IHc|intros; exact I] ].
 Qed.
+
+Theorem parse_path_extends : forall c, Pok c.
+Proof. intros c. exact (proj1 (parse_path_extends2 c)). Qed.
 
 (* Renamed appends exactly its own name, in all three interpreters *)
 Theorem renamed_appends_name : forall n c cx p s obj o,
